@@ -9,16 +9,17 @@ lines = []
 for f in sys.argv[1:]:
     lines += [l.strip() for l in open(f) if re.match(r'^C\d\d patch', l)]
 for l in lines:
-    m = re.match(r'^(C\d\d) patch(\d)\.diff: demo-base\[(.*?)\] demo-patched\[(.*?)\] suite\[(.*?)\] check:EXIT=(\d)\s*(cases=\d+)?\s*(.*)$', l)
+    m = re.match(r'^(C\d\d) patch(\d+)\.diff: demo-base\[(.*?)\] demo-patched\[(.*?)\] suite\[(.*?)\] check:EXIT=(\d)\s*(cases=\d+)?\s*(.*)$', l)
     if not m:
         print('unparsed', l[:80]); continue
     pid, k, base, patched, suite, code, cases, sig = m.groups()
     ok = base.startswith('ok.') and patched.startswith('FAILED') and '443 passed; 0 failed' in suite
     if not ok:
         print('NOT CONFIRMED', pid, k, base, patched, suite); continue
-    # K = 1..3: round 1 (/tmp/seed/out-<ID>), K = 4..6: round 2 (/tmp/seed/out2-<ID>, files 1..3)
-    src = f'/tmp/seed/out-{pid}' if int(k) <= 3 else f'/tmp/seed/out2-{pid}'
-    fk = int(k) if int(k) <= 3 else int(k) - 3
+    # K = 1..3: round 1 (/tmp/seed/out-<ID>), K = 3(N-1)+1..3(N-1)+3: round N (/tmp/seed/out<N>-<ID>, files 1..3)
+    rnd = (int(k) - 1) // 3 + 1
+    src = f'/tmp/seed/out-{pid}' if rnd == 1 else f'/tmp/seed/out{rnd}-{pid}'
+    fk = int(k) - 3 * (rnd - 1)
     dst = f'{V}/seeded/{pid}-{k}'
     os.makedirs(dst, exist_ok=True)
     shutil.copy(f'{src}/patch{fk}.diff', f'{dst}/patch.diff')
@@ -34,7 +35,7 @@ for l in lines:
     files = sorted(set(re.findall(r'^\+\+\+ b/(\S+)', open(f'{dst}/patch.diff').read(), re.M)))
     meta = {
         'property': pid,
-        'round': 1 if int(k) <= 3 else 2,
+        'round': rnd,
         'breaks': title,
         'files_changed': files,
         'needs_to_manifest': needs,
